@@ -284,12 +284,16 @@ def _write_files(dirs, files):
             os.remove(fn)
 
 
-def _labelled_files(dirs, files, jpath):
+def _labelled_files(dirs, files, jpath, layout=None):
     "[(label, config)] of every nbdime_config.json that exists, highest priority first: cwd, then jupyter_config_path()"
-    ours = {os.path.realpath(p): d for d, p in dirs.items()}
+    ours = {}
+    for d in ('user', 'envpath', 'cwd'):
+        ours[os.path.realpath(dirs[d])] = d
     out = [('cwd', files['cwd'])] if 'cwd' in files else []
     for p in jpath:
         d = ours.get(os.path.realpath(p))
+        if d == 'cwd' and layout:
+            continue             # the working directory again, in its role as user-level directory: already counted at the top
         if d == 'cwd':
             raise CheckerDefect('C19: temp cwd is on the jupyter config path')
         if d is not None:
@@ -316,8 +320,19 @@ def _run_job(job):
     out = {'count': 0, 'keys': [], 'fails': [], 'sample': None}
     try:
         dirs = {d: os.path.join(root, d) for d in M.DIRS}
-        for p in dirs.values():
-            os.mkdir(p)
+        layout = job.get('layout')
+        if layout in ('cwd-is-user', 'cwd-is-user-symlink'):
+            # the working directory IS the user's jupyter configuration directory (nbdime run from ~/.jupyter, or JUPYTER_CONFIG_DIR
+            # pointing at the project), directly or through a symbolic link: its file is still the working-directory file
+            os.mkdir(dirs['cwd'])
+            os.mkdir(dirs['envpath'])
+            if layout == 'cwd-is-user-symlink':
+                os.symlink(dirs['cwd'], dirs['user'])
+            else:
+                dirs['user'] = dirs['cwd']
+        else:
+            for p in dirs.values():
+                os.mkdir(p)
         os.environ['JUPYTER_CONFIG_DIR'] = dirs['user']
         os.environ['JUPYTER_CONFIG_PATH'] = dirs['envpath']
         os.environ.pop('JUPYTER_NO_CONFIG', None)
@@ -334,11 +349,13 @@ def _run_job(job):
             if only and ci != only[0]:
                 continue
             files, steps = _gen_case(seed, ci)
+            if layout:
+                files.pop('user', None)           # there is no separate user-level directory in this layout
             digest = M.key_of([files, steps])
             if only and job.get('digest') not in (None, digest):
                 raise CheckerDefect('C19: case generation is not reproducible across processes')
-            _write_files(dirs, files)
-            labelled = _labelled_files(dirs, files, jpath)
+            _write_files({d: p for d, p in dirs.items() if not (layout and d == 'user')}, files)
+            labelled = _labelled_files(dirs, files, jpath, layout)
             first = {}
             for si, step in enumerate(steps):
                 if only and si != only[1]:
@@ -366,7 +383,7 @@ def _run_job(job):
                         c = confirmed.setdefault(kind, [])
                         if len(c) >= 1:
                             continue
-                        fresh = _spawn({'seed': seed, 'n': n, 'only': [ci, si], 'digest': digest})
+                        fresh = _spawn({'seed': seed, 'n': n, 'only': [ci, si], 'digest': digest, 'layout': layout})
                         still = [f for f in fresh['fails'] if f['where'].get('opt') == opt]
                         c.append(ci)
                         if not still:
@@ -421,7 +438,7 @@ def _spawn(job):
 def replay_case(where):
     """re-run the recorded job (every case up to the recorded one, same order, fresh process) and return the
     failures recorded for that case/step/option; [] = passes now"""
-    job = {'seed': where['seed'], 'n': where['case'] + 1}
+    job = {'seed': where['seed'], 'n': where['case'] + 1, 'layout': where.get('layout')}
     out = _spawn(job)
     return [[f['kind'], f['text']] for f in out['fails']
             if f['where']['case'] == where['case'] and f['where']['step'] == where['step']
@@ -432,6 +449,8 @@ def run_bounded(res):
     q = res.tier == 'quick'
     njobs, n = (32, 40) if q else (128, 160)
     jobs = [{'seed': res.seed * 8191 + j, 'n': n} for j in range(njobs)]
+    # the working directory doubling as the user's jupyter configuration directory (directly / through a symbolic link)
+    jobs += [{'seed': res.seed * 8191 + 5000 + j, 'n': n // 2, 'layout': lay} for j in range(max(2, njobs // 8)) for lay in ('cwd-is-user', 'cwd-is-user-symlink')]
     seen = set()
     for job, out in zip(jobs, common.pmap(_spawn, jobs)):
         res.evaluations += out['count']
@@ -451,12 +470,13 @@ def run_bounded(res):
                 continue
             seen.add(kind)
             # replay needs only the cases up to the failing one
-            where = dict(f['where'], kind=kind)
+            where = dict(f['where'], kind=kind, layout=job.get('layout'))
             res.violation('%s [%s]' % (f['text'], kind),
                           dict(where, replay_kind='call', module='checks.c19_bounded', function='replay_case', args=[where]))
     res.coverage['rule'] = (
         '%d jobs x %d generated configurations; each job runs in ONE fresh process and resolves its configurations one after the other. '
-        'A configuration = nbdime_config.json in 1-3 of {temp cwd, JUPYTER_CONFIG_PATH dir, JUPYTER_CONFIG_DIR dir}, each with 1-4 of the '
+        'A configuration = nbdime_config.json in 1-3 of {temp cwd, JUPYTER_CONFIG_PATH dir, JUPYTER_CONFIG_DIR dir} (in 1/9 of the jobs the working directory '
+        'itself is the JUPYTER_CONFIG_DIR, directly or through a symbolic link), each with 1-4 of the '
         '7 documented shared sections / 11 entry-point sections setting 1-4 focus options they may legitimately set (log_level everywhere; web '
         'options in Web/WebTool; ignorables, Ignore, color_words in Diff/GitDiff; + merge options in Merge/GitMerge; everything in own sections) '
         'with values from small domains (booleans/None, enums, 5 ports, Ignore with 1-3 of 5 paths -> True/False/key list/None). Per configuration: '
